@@ -400,13 +400,15 @@ macro_rules! impl_bytes_mut_utils {
         return Ok(core::ptr::NonNull::dangling());
       }
 
-      let align_offset = crate::align_offset::<T>(self.allocated.memory_offset + self.len as u32);
+      // the pointer handed out is relative to `ptr_offset` (the accessible part), so that is what is aligned:
+      // `memory_offset` differs from it for aligned allocations and recycled segments.
+      let align_offset = crate::align_offset::<T>(self.allocated.ptr_offset + self.len as u32);
 
-      if align_offset > self.allocated.memory_offset + self.allocated.memory_size {
-        return Err(InsufficientBuffer::with_information((align_offset as u64 - self.len as u64 - self.allocated.memory_offset as u64), (self.allocated.memory_size as u64 - self.len as u64)));
+      if align_offset > self.allocated.ptr_offset + self.allocated.ptr_size {
+        return Err(InsufficientBuffer::with_information((align_offset as u64 - self.len as u64 - self.allocated.ptr_offset as u64), (self.allocated.ptr_size as u64 - self.len as u64)));
       }
 
-      self.len = (align_offset - self.allocated.memory_offset) as usize;
+      self.len = (align_offset - self.allocated.ptr_offset) as usize;
       // SAFETY: We have checked the buffer size, and apply the align
       Ok(unsafe {
         core::ptr::NonNull::new_unchecked(self.as_mut_ptr().add(self.len).cast::<T>())
